@@ -92,13 +92,13 @@ def vsize(v):
     return len(json.dumps(v.get('history', {}), default=str))
 
 
-def run_pool(modname, tasks, deadline=None, nproc=None):
+def run_pool(modname, tasks, deadline=None, nproc=None, into=None):
     nproc = nproc or NPROC
     rundir = os.path.join(uni.SCRATCH_BASE, 'fbmc.%07d' % os.getpid())
     shutil.rmtree(rundir, ignore_errors=True)
     os.makedirs(rundir)
     atexit.register(shutil.rmtree, rundir, True)
-    res = Result()
+    res = into if into is not None else Result()
     try:
         if nproc == 1:
             _init_worker(rundir)
